@@ -25,7 +25,7 @@ META = dict(
                "partly oracle-based: entailment 'active assertions |= leaf' and T-validity are answered by z3 (cross-checked by cvc5 "
                "before a violation is reported); the frame bookkeeping (which frames are active) is exact. Trusted: Coq kernel, "
                "extraction, ocaml/sat_driver.ml, the proof reader in lib/sattrace.py.",
-    design_ref="DESIGN.md §7 C10, design/C10.md",
+    design_ref="DESIGN.md §7 C10 / design/C10.md",
     trusted_base=["Coq 8.16.1 kernel", "extraction: Require Import ExtrOcamlBasic ExtrOcamlString; no Extract Constant of our own",
                   "ocaml/sat_driver.ml (decimal int <-> positive/Z/N, line protocol)",
                   "lib/sattrace.py parse_proof (reader of the printed proof, numbering of atoms)",
@@ -232,12 +232,12 @@ def run(ctx):
                 return [], None
 
     def solve_(job):
-        rc, out, err = vlib.run_opensmt(job["pre"] + job["body"], timeout=tmo)
+        rc, out, err = sattrace.run_solver(job["pre"] + job["body"], timeout=tmo)
         answers = [w for w in out.split() if w in ("sat", "unsat", "unknown")]
         if "unsat" not in answers:
             return answers, None
         text = job["pre"] + insert_get_proofs(job["body"], answers)
-        rc2, out2, err2 = vlib.run_opensmt(text, timeout=tmo)
+        rc2, out2, err2 = sattrace.run_solver(text, timeout=tmo)
         return answers, (text, rc2, out2)
     import time as _t
     t0 = _t.time()
@@ -340,25 +340,51 @@ def run(ctx):
             proofs[pi][which] = ans
 
     # 2. leaves: frame bookkeeping + oracle entailment (cached per script/state)
-    def leaf_work(P):
+    def leaf_work(P, cache):
         pr = P["pr"]
         if pr is None or P["state"] is None:
             return None
         infos, problems = analyse_proof(ctx, None, pr, P["state"], P["job"]["logic"])
-        queries = [(i["name"], i["need_levels"], i["term"]) for i in infos if i["kind"] in ("base", "guarded")]
+        level_asserts = [l["assertions"] for l in P["state"]["levels"]]
         res = {}
+        queries = []
+        for i in infos:
+            if i["kind"] in ("base", "guarded"):
+                key = (tuple(tuple(a) for a in level_asserts[:i["need_levels"]]), i["term"])
+                i["key"] = key
+                if key in cache:
+                    res[i["name"]] = cache[key]
+                else:
+                    queries.append((i["name"], i["need_levels"], i["term"]))
         if queries:
-            level_asserts = [l["assertions"] for l in P["state"]["levels"]]
-            res = oracle_entailment(P["job"]["logic"], P["state"]["decls"], level_asserts, queries, "z3", timeout=10 if ctx.quick else 30)
-            bad = [q for q in queries if res.get(q[0], ("unknown", "unknown"))[0] != "unsat" and res.get(q[0], ("unknown", "unknown"))[1] != "unsat"]
+            tmo_o = 10 if ctx.quick else 30
+            r1 = oracle_entailment(P["job"]["logic"], P["state"]["decls"], level_asserts, queries, "z3", timeout=tmo_o)
+            res.update(r1)
+            bad = [q for q in queries if r1.get(q[0], ("unknown", "unknown"))[0] != "unsat" and r1.get(q[0], ("unknown", "unknown"))[1] != "unsat"]
             if bad:
-                res2 = oracle_entailment(P["job"]["logic"], P["state"]["decls"], level_asserts, bad, "cvc5", timeout=10 if ctx.quick else 30)
+                res2 = oracle_entailment(P["job"]["logic"], P["state"]["decls"], level_asserts, bad, "cvc5", timeout=tmo_o)
                 for q in bad:
                     res[("cvc5", q[0])] = res2.get(q[0], ("unknown", "unknown"))
+            badn = {q[0] for q in bad}
+            for i in infos:
+                if i.get("key") is not None and i["name"] in r1 and i["name"] not in badn:
+                    cache[i["key"]] = r1[i["name"]]      # only decided answers are reused
         return infos, problems, res
+
+    # proofs of one script share most leaves: one worker per script, answers reused within the script
+    groups = {}
+    for pi, P in enumerate(proofs):
+        groups.setdefault(P["text"], []).append(pi)
+
+    def group_work(pis):
+        cache = {}
+        return [(pi, leaf_work(proofs[pi], cache)) for pi in pis]
     t0 = _t.time()
+    leafres = [None] * len(proofs)
     with concurrent.futures.ThreadPoolExecutor(max_workers=6) as pool:
-        leafres = list(pool.map(leaf_work, proofs))
+        for part in pool.map(group_work, list(groups.values())):
+            for pi, r in part:
+                leafres[pi] = r
     ctx.extra["t_oracle_s"] = round(_t.time() - t0, 1)
 
     nleaves = dict(activation=0, guarded=0, base=0, theory=0, undecided=0, elided=0, aux=0)
